@@ -1,1 +1,79 @@
-From BHW Require Import Model.PaperWallet.
+(* C06 -- Paper-wallet records are mutually consistent and follow BIP44/49/84.
+   Structure theorems over the model of PaperWallet.generate, for every curve / HMAC / hash function:
+   what each section contains is a function of the master node, the network, the account and the interval;
+   row i is built from the single node at m/purpose'/coin'/account'/0/i.  That the node at a path is the
+   BIP32 one is C01; that its address/WIF/SEC are the standard encodings is C05/C09; the SLIP-132 table is C07. *)
+From BHW Require Import Lib.Base Lib.ListAux Model.Helper Model.Keys Model.Bip32M Model.WalletUtils Model.Address
+  Model.PaperWallet Spec.Curve Proofs.Wallet.
+From BHWGen Require Import Consts.
+From Coq Require String.
+Import String.StringSyntax.
+
+Section C06.
+Variable C : curve.
+Variable hmac512 : bytes -> bytes -> bytes.
+Variable sha256 hash160 : bytes -> bytes.
+Variable alph : list Z.
+
+(* account node at [purpose', coin', account'], its extended keys, and exactly one row per index of
+   range(lo, hi), in order, each built from the node at account path ++ [0; i] *)
+Theorem C06_bip_section_spec : forall purpose w account lo hi keys rows,
+  bip_section C hmac512 sha256 hash160 alph purpose w account lo hi = Ok (keys, rows) ->
+  exists acct rs,
+    derive_path C hmac512 (w_master w) (account_path purpose w account) = Ok acct /\
+    node_extended_keys C sha256 hash160 alph w acct = Ok keys /\ rows = TList rs /\
+    Forall2 (fun i r => exists nd, derive_path C hmac512 (w_master w) (account_path purpose w account ++ [0; i]) = Ok nd /\
+                                   row C sha256 hash160 alph purpose w nd = Ok r) (zrange lo hi) rs.
+Proof. exact (bip_section_spec C hmac512 sha256 hash160 alph). Qed.
+
+Theorem C06_rows_count : forall purpose w account lo hi keys rs,
+  bip_section C hmac512 sha256 hash160 alph purpose w account lo hi = Ok (keys, TList rs) ->
+  Z.of_nat (length rs) = Z.max 0 (hi - lo).
+Proof. exact (rows_count C hmac512 sha256 hash160 alph). Qed.
+
+(* path string, address, SEC hex and WIF of a row all come from ONE node *)
+Theorem C06_row_shape : forall purpose w nd r,
+  row C sha256 hash160 alph purpose w nd = Ok r ->
+  exists a K wf, r = TList [TStr (node_repr nd); topt a; TStr (Bip85M.hexstr (ser_c C K)); wf] /\
+    public_key C nd = Ok K /\ addr_fnc C sha256 hash160 alph purpose w nd = Ok a /\
+    (w_watch_only w = true -> wf = TNone) /\
+    (w_watch_only w = false -> exists kK s, private_key C nd = Ok kK /\
+                                          wif alph sha256 (fst kK) true (w_testnet w) = Ok s /\ wf = TStr s).
+Proof. exact (row_shape C hmac512 sha256 hash160 alph). Qed.
+
+(* coin type 0' on mainnet, 1' on testnet; purpose and account hardened *)
+Theorem C06_account_path : forall purpose w account,
+  nth 1 (account_path purpose w account) 0 = (if w_testnet w then 1 else 0) + 2147483648 /\
+  nth 0 (account_path purpose w account) 0 = purpose + 2147483648 /\
+  nth 2 (account_path purpose w account) 0 = account + 2147483648.
+Proof. exact coin_type_tag. Qed.
+
+(* the account keys are printed under the SLIP-132 flavour of (purpose, network), and the account's
+   path string is m/purpose'/coin'/account' *)
+Theorem C06_account_version_slip132 : forall purpose w account acct key_type,
+  node_repr (w_master w) = [109] ->
+  derive_path C hmac512 (w_master w) (account_path purpose w account) = Ok acct ->
+  0 <= account < 2147483648 -> (purpose = 44 \/ purpose = 49 \/ purpose = 84) ->
+  node_version w acct key_type = version_int key_type (purpose_code purpose) (w_testnet w) /\
+  node_repr acct = path_repr (path_of_list true (account_path purpose w account)).
+Proof. exact (account_version C hmac512 sha256 hash160 alph). Qed.
+
+(* top-level layout of generate(): MASTER echoes mnemonic/passphrase, then BIP85 and the three sections *)
+Theorem C06_generate_layout : forall w account lo hi t,
+  generate C hmac512 sha256 hash160 alph w account lo hi = Ok t ->
+  exists s44 s49 s84 b85,
+    bip_section C hmac512 sha256 hash160 alph 44 w account lo hi = Ok s44 /\
+    bip_section C hmac512 sha256 hash160 alph 49 w account lo hi = Ok s49 /\
+    bip_section C hmac512 sha256 hash160 alph 84 w account lo hi = Ok s84 /\
+    bip85_data C hmac512 sha256 hash160 alph w = Ok b85 /\
+    t = TDict [(k "MASTER", master_data w); (k "BIP85", b85); (k "BIP44", section_tree s44);
+               (k "BIP49", section_tree s49); (k "BIP84", section_tree s84)].
+Proof. exact (generate_layout C hmac512 sha256 hash160 alph). Qed.
+End C06.
+
+Print Assumptions C06_bip_section_spec.
+Print Assumptions C06_rows_count.
+Print Assumptions C06_row_shape.
+Print Assumptions C06_account_path.
+Print Assumptions C06_account_version_slip132.
+Print Assumptions C06_generate_layout.
